@@ -65,7 +65,42 @@ var errPipeClosed = errors.New("pipe closed")
 // connKit, whose Read drains one control message at a time) unless stream is
 // set, in which case it is a plain byte stream read in fragments of at most
 // frag bytes.
+// stallState lets the two directions of a duplex notice that both parties wait
+// for bytes that will never come (the stand-in for the handshake read
+// deadline of the real transport).
+type stallState struct {
+	mu      sync.Mutex
+	blocked [2]bool // party i is blocked in Read
+	done    [2]bool // party i has returned from DoHandshake
+	pipes   [2]*halfPipe
+}
+
+// check closes both pipes if nobody can make progress any more. Must be called
+// without any halfPipe mutex held.
+func (st *stallState) check() {
+	st.mu.Lock()
+	stuck := (st.blocked[0] || st.done[0]) && (st.blocked[1] || st.done[1]) && (st.blocked[0] || st.blocked[1])
+	st.mu.Unlock()
+	if !stuck {
+		return
+	}
+	// a blocked reader only counts if its pipe is really empty
+	for _, h := range st.pipes {
+		h.mu.Lock()
+		pending := len(h.msgs) > 0 || len(h.cur) > 0
+		h.mu.Unlock()
+		if pending {
+			return
+		}
+	}
+	for _, h := range st.pipes {
+		h.Close()
+	}
+}
+
 type halfPipe struct {
+	stall  *stallState
+	reader int // index of the party that reads this pipe
 	mu     sync.Mutex
 	cond   *sync.Cond
 	msgs   [][]byte
@@ -124,7 +159,26 @@ func (h *halfPipe) Read(p []byte) (int, error) {
 		if h.closed {
 			return 0, io.EOF
 		}
+		if h.stall != nil {
+			h.mu.Unlock()
+			h.stall.mu.Lock()
+			h.stall.blocked[h.reader] = true
+			h.stall.mu.Unlock()
+			h.stall.check()
+			h.mu.Lock()
+			if len(h.msgs) > 0 || h.closed {
+				h.stall.mu.Lock()
+				h.stall.blocked[h.reader] = false
+				h.stall.mu.Unlock()
+				continue
+			}
+		}
 		h.cond.Wait()
+		if h.stall != nil {
+			h.stall.mu.Lock()
+			h.stall.blocked[h.reader] = false
+			h.stall.mu.Unlock()
+		}
 	}
 	n := len(p)
 	if h.frag > 0 && n > h.frag {
@@ -268,6 +322,16 @@ func (p *hsPair) run() {
 		}
 		return
 	}
+	// party 0 = initiator (reads r2i), party 1 = responder (reads i2r)
+	st := &stallState{pipes: [2]*halfPipe{p.r2i, p.i2r}}
+	p.r2i.stall, p.r2i.reader = st, 0
+	p.i2r.stall, p.i2r.reader = st, 1
+	finished := func(i int) {
+		st.mu.Lock()
+		st.done[i] = true
+		st.mu.Unlock()
+		st.check()
+	}
 	var wg sync.WaitGroup
 	wg.Add(2)
 	go func() {
@@ -277,6 +341,7 @@ func (p *hsPair) run() {
 			p.i2r.Close()
 			p.r2i.Close()
 		}
+		finished(0)
 	}()
 	go func() {
 		defer wg.Done()
@@ -285,6 +350,7 @@ func (p *hsPair) run() {
 			p.i2r.Close()
 			p.r2i.Close()
 		}
+		finished(1)
 	}()
 	done := make(chan struct{})
 	go func() { wg.Wait(); close(done) }()
